@@ -7,8 +7,15 @@ from ..gen import J
 
 PROP = "C03"
 MONITORS = ("WF",)
-ANCHORS = [("measure.py", 60, 76), ("measure.py", 193, 201), ("measure.py", 294, 320),
-           ("measure.py", 324, 985)]
+ANCHORS = [("measure.py", "GaussianMeasure.integrate"), ("measure.py", "GaussianMeasure._get_default"),
+           ("measure.py", "GaussianMeasure.integrate_cubic_outer"),
+           ("measure.py", "GaussianMeasure.integrate_xbxx")] + [
+    ("measure.py", "GaussianMeasure." + n) for n in (
+        "_expectation_x", "_expectation_general_linear", "_expectation_xxT",
+        "_expectation_general_quadratic_inner", "_expectation_general_quadratic_outer",
+        "_expectation_xbxx", "_expectation_cubic_outer", "_expectation_general_cubic_inner",
+        "_expectation_general_cubic_outer", "_expectation_general_quartic_outer",
+        "_expectation_general_quartic_inner")]
 RULE = ("cell = (integrand key, D, (K,L,M) pairwise different, R, coefficient layout in {shared, "
         "per-component, mixed, matrix omitted, vector omitted, both omitted}, mode in {exact, float}, "
         "call style in {integrate(expr), named method}); oracle = total mass x Isserlis moment of "
